@@ -106,7 +106,7 @@ def lex_work(exe, start, n):
             done = len(blocks)
             if p.returncode != 0 and done <= len(todo):
                 bad = todo[done - 1] if done else todo[0]
-                results[bad] = drv.Crash(p.returncode, p.stderr[-2000:])
+                results[bad] = drv.Crash(p.returncode, drv.clip(p.stderr))
                 todo = todo[max(done, 1):]
             else:
                 todo = []
